@@ -54,6 +54,9 @@ def _gen(ctx):
         # a stray end tag in the visible region is ignored by HTML; it must not disturb removal
         toks.append(("end", _sym_tag(ctx, "pre_end")))
     form = 0
+    if ctx.params.get("target") == "epub" and outer not in VOID_REMOVABLE and not stray and ctx.flag("xhtml_empty_element_form"):
+        # <script src="a.js"/> in XHTML is an element without content: what follows it is visible
+        form = 2
     if outer in VOID_REMOVABLE:
         # <embed> is a void element: it has no content and no end tag, what follows is
         # visible.  (<embed>text</embed> is contradictory markup and outside the claim.)
@@ -62,12 +65,26 @@ def _gen(ctx):
         toks.append(("comment", "HC0"))
         hidden.append("HC0")
     visible = ["AAA"]
+    # the element sits inside a visible element that is still open (div / td / li): an end tag of THAT name
+    # inside the removed region belongs to the removed content and must not close the visible element
+    # (table cells only for the HTML target: the EPUB chapter extractor keeps cell text in its table list, which
+    # this kernel does not read)
+    wrappers = ("div", "li", None) if ctx.params.get("target") == "epub" else ("div", "td", "li", None)
+    if ctx.tier == "quick":
+        wrappers = ("div" if ctx.params.get("target") == "epub" else "td", None)
+    wrapper = wrappers[ctx.choice("open_wrapper", len(wrappers))] if ctx.params.get("mode") != "stray" else None
+    if wrapper == "td":
+        toks += [("start", "table"), ("start", "tr")]
+    if wrapper == "li":
+        toks.append(("start", "ul"))
+    if wrapper:
+        toks.append(("start", wrapper))
     # visible text directly before / after the element (no tag in between): the removal must not take
     # the neighbouring text nodes with it
     if ctx.flag("text_directly_before"):
         toks.append(("text", "TBF"))
         visible.append("TBF")
-    toks.append(("start", outer))
+    toks.append(("start", outer) if form != 2 else ("startend", outer))
     if form == 0:
         k = ctx.choice("n_items", (1 if stray else n_items) + 1)
         depth = 1
@@ -104,13 +121,19 @@ def _gen(ctx):
     if ctx.flag("text_directly_after"):
         toks.append(("text", "TAF"))
         visible.append("TAF")
+    if wrapper:
+        toks.append(("end", wrapper))
+    if wrapper == "td":
+        toks += [("end", "tr"), ("end", "table")]
+    if wrapper == "li":
+        toks.append(("end", "ul"))
     if stray and ctx.flag("stray_end_after"):
         toks.append(("end", _sym_tag(ctx, "post_end")))
     toks += [("start", "p"), ("text", "BBB"), ("end", "p")]
     return toks, visible + ["BBB"], hidden, outer
 
 
-def _lower(toks, feed_start, feed_end, feed_data, feed_comment):
+def _lower(toks, feed_start, feed_end, feed_data, feed_comment, feed_startend=None):
     """token list -> the callbacks html.parser.HTMLParser makes (python 3.12 semantics):
     tags arrive lower-cased; <x/> = start+end; inside <script>/<style> everything up to the
     matching end tag is delivered as data"""
@@ -138,8 +161,11 @@ def _lower(toks, feed_start, feed_end, feed_data, feed_comment):
         elif kind == "end":
             feed_end(v)
         elif kind == "startend":
-            feed_start(v, [])
-            feed_end(v)
+            if feed_startend is not None:
+                feed_startend(v, [])
+            else:
+                feed_start(v, [])
+                feed_end(v)
 
 
 def _render(toks):
@@ -154,14 +180,14 @@ def _render(toks):
 def _run_html(ctx, toks):
     h, e = _mods()
     b = h._HtmlTreeBuilder()
-    _lower(toks, b.handle_starttag, b.handle_endtag, b.handle_data, b.handle_comment)
+    _lower(toks, b.handle_starttag, b.handle_endtag, b.handle_data, b.handle_comment, b.handle_startendtag)
     return h._HtmlTextExtractor(b.get_tree()).extract()
 
 
 def _run_epub(ctx, toks):
     h, e = _mods()
     x = e._XhtmlTextExtractor()
-    _lower(toks, x.handle_starttag, x.handle_endtag, x.handle_data, x.handle_comment)
+    _lower(toks, x.handle_starttag, x.handle_endtag, x.handle_data, x.handle_comment, x.handle_startendtag)
     return x.get_text()
 
 
@@ -337,14 +363,17 @@ k = Kernel("K1", "removal state machine of both HTML-family parsers on symbolic 
                      "1,2,3,5,6 - so br/img/embed/param/script/object/... and the outer element's own name are all reachable)"],
            choices=["outer removable element (embed only in its void form)", "number and kind of inner items",
                     "stray end tag (symbolic name, may be the removable's own) before / after the element",
-                    "comment before the element", "visible text directly before / directly after the element"],
+                    "comment before the element", "visible text directly before / directly after the element",
+                    "still-open visible element around it (div / table cell / list item / none)",
+                    "XHTML empty-element form of the removable element (EPUB target)"],
            assumptions=["inner unclosed start tags are not script/style (those swallow the rest of the document by "
                         "HTML's own rules)",
                         "reference semantics: the removed element ends at the end tag matching its own name; "
                         "inner tags of the same name are balanced (assumed) and do not close it early",
                         "lowering to callbacks follows html.parser of this Python (tags lower-cased, <x/> = start+end, "
                         "script/style content delivered as data); validated at replay by rendering and running feed()"],
-           outside=["self-closing form of the removable element itself (<script/>): HTML5 and XHTML disagree on it",
+           outside=["self-closing form of the removable element itself (<script/>) in HTML: HTML5 and XHTML disagree on it "
+                    "(for EPUB chapters, which are XHTML, it is covered)",
                     "attribute values containing markup; tag names longer than 6 characters; more than 2 (3) inner items"],
            timeout={"quick": 280, "thorough": 2400})
 k.replayer = _public_replay
